@@ -14,7 +14,8 @@ to (taken from the match object that the stub handed out: the slice of the text 
 must split at the same places.  Coordinates handed out by the stubs satisfy the C01 contract relative to the read
 the adapter stage received.
 
-Every condition is check_info with one concrete shape in `param`; its arguments are the symbolic inputs.
+Every condition is check_info (up to two matches) or check_info3 (three: a linked match followed by a single one)
+with one concrete shape in `param`; the arguments are the symbolic inputs.
 """
 from harness.e2_common import Rec, StubStats, clamp, revcomp, e2_jobs, e2_run_job, e2_replay
 from harness.c16_revcomp import OrientedStub, RecFile, _conc
@@ -36,7 +37,7 @@ QUALS = "fghijk"          # distinct characters
 FWD_ALPHABET = "ACMRHV"
 ROW = 24                  # pieces of one match row: 12 fields, 11 separators, newline
 
-DEFAULT_RANGES = {"u": (-2, 2), "qs": (0, 2), "qb": (0, 2), "e0": (0, 1), "e1": (0, 1)}
+DEFAULT_RANGES = {"u": (-2, 2), "qs": (0, 2), "qb": (0, 2), "e0": (0, 1), "e1": (0, 1), "e2": (0, 1)}
 
 
 def set_param(p):
@@ -82,16 +83,26 @@ def _nmatches():
     shape = _PARAM.get("shape", ("single", ("after",)))
     if shape[0] == "single":
         return len(shape[1])
-    return 2
+    return 3 if shape[0] == "linked_then_single" else 2
+
+
+def _pin(value, key):
+    """Optional narrower range of one coordinate (param 'ranges', keys x0, y0, x1, y1, x2, y2); absent = any 0..len."""
+    r = (_PARAM.get("ranges") or {}).get(key)
+    return True if r is None else r[0] <= value <= r[1]
 
 
 def _ranges(u, qs, qb, x0, y0, e0, x1, y1, e1):
     n = _n()
     if not (_rng("u")[0] <= u <= _rng("u")[1] and _rng("qs")[0] <= qs <= _rng("qs")[1] and _rng("qb")[0] <= qb <= _rng("qb")[1]):
         return False
-    if not (0 <= x0 <= y0 <= n and _rng("e0")[0] <= e0 <= _rng("e0")[1]):
+    if not (0 <= x0 <= y0 <= n and _rng("e0")[0] <= e0 <= _rng("e0")[1] and _pin(x0, "x0") and _pin(y0, "y0")):
         return False
-    return 0 <= x1 <= y1 <= n and _rng("e1")[0] <= e1 <= _rng("e1")[1]
+    return 0 <= x1 <= y1 <= n and _rng("e1")[0] <= e1 <= _rng("e1")[1] and _pin(x1, "x1") and _pin(y1, "y1")
+
+
+def _ranges3(x2, y2, e2):
+    return 0 <= x2 <= y2 <= _n() and _rng("e2")[0] <= e2 <= _rng("e2")[1] and _pin(x2, "x2") and _pin(y2, "y2")
 
 
 def _part(u, qs, qb, rc):
@@ -122,12 +133,27 @@ def check_info(u: int, qs: int, qb: int, rc: bool, x0: int, y0: int, e0: int, x1
     pre: _part(u, qs, qb, rc)
     post: _
     """
+    return _run(u, qs, qb, rc, x0, y0, e0, x1, y1, e1, 0, 0, 0)
+
+
+def check_info3(u: int, qs: int, qb: int, rc: bool, x0: int, y0: int, e0: int, x1: int, y1: int, e1: int, x2: int, y2: int, e2: int) -> bool:
+    """
+    pre: _ranges(u, qs, qb, x0, y0, e0, x1, y1, e1)
+    pre: _ranges3(x2, y2, e2)
+    pre: _part(u, qs, qb, rc)
+    post: _
+    """
+    return _run(u, qs, qb, rc, x0, y0, e0, x1, y1, e1, x2, y2, e2)
+
+
+def _run(u, qs, qb, rc, x0, y0, e0, x1, y1, e1, x2, y2, e2):
     seq = _PARAM.get("seq", TEXT[:5])
     n = len(seq)
     has_quals = _PARAM.get("quals", True)
     quals = QUALS[:n] if has_quals else None
     mode = _PARAM.get("mode", "plain")                    # 'plain' | 'revcomp'
-    shape = _PARAM.get("shape", ("single", ("after",)))    # ('single', kinds) | ('linked', front present, back present)
+    # ('single', kinds) | ('linked', front present, back present) | ('linked_then_single', front present, back present, kind of the round-2 match)
+    shape = _PARAM.get("shape", ("single", ("after",)))
     times = _PARAM.get("times", 1)
     trimmer = _PARAM.get("trimmer", "quality")            # 'quality' | 'nextseq' | None
     if not has_quals:
@@ -153,14 +179,20 @@ def check_info(u: int, qs: int, qb: int, rc: bool, x0: int, y0: int, e0: int, x1
         stub = OrientedStub("ad1", {o: [(kind, x, y, 1, e) for kind, x, y, e, _ in programme]}, fwd_alphabet=FWD_ALPHABET, shared=shared)
         adapters = [stub]
     else:
-        _, fp, bp = shape
+        fp, bp = shape[1], shape[2]
         if fp:
             programme.append(("before", _conc(x0, 0, n), _conc(y0, 0, n), _conc(e0, _rng("e0")[0], _rng("e0")[1]), "L;1"))
         if bp:
             programme.append(("after", _conc(x1, 0, n), _conc(y1, 0, n), _conc(e1, _rng("e1")[0], _rng("e1")[1]), "L;2"))
+        nl = len(programme)
         front = OrientedStub("Lf", {o: [("before", programme[0][1], programme[0][2], 1, programme[0][3])] if fp else [None]}, fwd_alphabet=FWD_ALPHABET, shared=shared)
-        back = OrientedStub("Lb", {o: [("after", programme[-1][1], programme[-1][2], 1, programme[-1][3])] if bp else [None]}, fwd_alphabet=FWD_ALPHABET, shared=shared)
+        back = OrientedStub("Lb", {o: [("after", programme[nl - 1][1], programme[nl - 1][2], 1, programme[nl - 1][3])] if bp else [None]}, fwd_alphabet=FWD_ALPHABET, shared=shared)
         adapters = [_Linked(front, back, front_required=fp, back_required=bp, name="L")]
+        if shape[0] == "linked_then_single":
+            # round 1: only the linked adapter answers; round 2: only the single adapter (both stubs of the linked one are exhausted)
+            kind2 = shape[3]
+            programme.append((kind2, _conc(x2, 0, n), _conc(y2, 0, n), _conc(e2, _rng("e2")[0], _rng("e2")[1]), "ad2"))
+            adapters.append(OrientedStub("ad2", {o: [None, (kind2, programme[nl][1], programme[nl][2], 1, programme[nl][3])]}, fwd_alphabet=FWD_ALPHABET, shared=shared))
 
     # ---- the real modifiers in the order of the pipeline: -u, quality trimming, adapter trimming (with or without --revcomp)
     _KERNEL["qs"] = qs
@@ -300,6 +332,20 @@ for _fp, _bp in ((True, True), (True, False), (False, True)):
     _add("plain/linked/front=%s/back=%s" % (_fp, _bp), {"mode": "plain", "shape": ("linked", _fp, _bp), "ranges": _TWO if _fp and _bp else dict(_ONE, e1=(0, 1))}, parts=("no5",))
 _add("plain/linked/front=True/back=True", {"mode": "plain", "shape": ("linked", True, True), "ranges": _TWO5}, parts=("5removed",))
 _add("revcomp/linked/front=True/back=True/rc", {"mode": "revcomp", "rc": True, "shape": ("linked", True, True), "ranges": dict(_TWO, u=(1, 1))}, parts=("no5",))
+# a linked match in round 1, a single match in round 2 (--times 2): rows ;1, ;2, then the row of round 2, each cut from what the previous match left.
+# Quick: the two coordinates of the linked match that do not decide what is left (start of the 5' part, end of the 3' part) are pinned.
+_LTS = dict(_TWO, e2=(0, 0), x0=(0, 0), y1=(5, 5))
+for _kind2 in ("before", "after"):
+    CONDITIONS.append({"name": "plain/linked_then_single/front=True/back=True/%s/no5" % _kind2, "fn": "check_info3", "timeout": 600,
+                       "param": {"mode": "plain", "shape": ("linked_then_single", True, True, _kind2), "times": 2, "ranges": _LTS, "part": "no5"}})
+CONDITIONS.append({"name": "plain/linked_then_single/front=True/back=False/after/no5", "fn": "check_info3", "timeout": 600,
+                   "param": {"mode": "plain", "shape": ("linked_then_single", True, False, "after"), "times": 2, "ranges": dict(_TWO, e2=(0, 0)), "part": "no5"}})
+CONDITIONS.append({"name": "plain/linked_then_single/front=False/back=True/before/no5", "fn": "check_info3", "timeout": 600,
+                   "param": {"mode": "plain", "shape": ("linked_then_single", False, True, "before"), "times": 2, "ranges": dict(_TWO, e2=(0, 0)), "part": "no5"}})
+CONDITIONS.append({"name": "revcomp/linked_then_single/front=True/back=True/after/rc/no5", "fn": "check_info3", "timeout": 600,
+                   "param": {"mode": "revcomp", "rc": True, "shape": ("linked_then_single", True, True, "after"), "times": 2, "ranges": dict(_LTS, u=(1, 1)), "part": "no5"}})
+CONDITIONS.append({"name": "plain/linked_then_single/front=True/back=True/after/len4_all_coordinates/no5", "fn": "check_info3", "timeout": 3000, "thorough_only": True,
+                   "param": {"mode": "plain", "seq": TEXT[:4], "shape": ("linked_then_single", True, True, "after"), "times": 2, "ranges": dict(_TWO, e2=(0, 0)), "part": "no5"}})
 # thorough: wider pre-trimming for two rounds / linked
 _WIDE = {"u": (-2, 0), "qs": (0, 0), "qb": (0, 1), "e1": (1, 1)}
 for _kinds in (("before", "after"), ("after", "before")):
@@ -318,7 +364,8 @@ def describe():
                       "modifiers.py:ReverseComplementer.__call__", "adapters.py:LinkedAdapter.match_to", "adapters.py:RemoveBeforeMatch/RemoveAfterMatch.trimmed", "steps.py:SingleEndFilter.__call__ + predicates.py:TooShort (a later filter)"],
         "bounds": {"read": "fixed text ACMRH (5; ACMRHV in two conditions), distinct characters, distinct quality characters; FASTA input (no qualities) in one shape",
                    "-u": "-2..2 (0 = option absent), symbolic", "quality trimming": "0..2 bases at the 5' end and 0..2 at the 3' end, symbolic (arbitrary value of the kernel's contract); --nextseq-trim 0..2",
-                   "matches": "none; one 5' or 3' match; two rounds (--times 2) of every kind sequence; one linked match (both parts, 5' part only, 3' part only)",
+                   "matches": "none; one 5' or 3' match; two rounds (--times 2) of every kind sequence; one linked match (both parts, 5' part only, 3' part only); a linked match (both parts / one part) in round 1 followed by a single 5' or 3' match in round 2",
+                   "linked_then_single": "quick: -u -1 (or 1 with the flag set), start of the 5' part pinned to 0 and end of the 3' part pinned to the end of the text when both parts are present, error counts pinned; thorough: all six coordinates symbolic on a 4-base read",
                    "coordinates": "every 0 <= start <= stop <= len(read) symbolic, clamped by the stub into the text it is shown (C01 contract relative to the read the adapter stage received)",
                    "errors": "0..1 symbolic per match (one of the two pinned in two-match shapes)", "revcomp": "orientation flag symbolic (one-match shapes) or per condition",
                    "two-match shapes": "quick: -u -1 (no5; -u 1 under --revcomp with the flag set) resp. -u in {0,1} with 5' quality trimming 0..1 (5removed); thorough: -u -2..0 and 3' quality trimming 0..1"},
@@ -328,7 +375,7 @@ def describe():
                   "_Linked: real LinkedAdapter with a recording statistics object", "Rec: dnaio.SequenceRecord contract", "RecFile: records print()'s pieces"],
         "assumptions": ["CrossHair's model of str/int/list operations", "only 'Confirmed over all paths' counts as discharged",
                         "every shape is split into 'no5' (nothing removed from the 5' end of the orientation shown before adapter trimming) and '5removed' (the family of the known defect)"],
-        "rule": "one CrossHair condition per (plain/revcomp, match shape, --times, trimmer, partition); symbolic: -u, quality-trim indices, orientation flag, match coordinates, error counts. non-trivial = conditions with more than one explored path whose reachability twin is refuted",
+        "rule": "one CrossHair condition per (plain/revcomp, match shape incl. linked-then-single, --times, trimmer, partition); symbolic: -u, quality-trim indices, orientation flag, match coordinates, error counts. non-trivial = conditions with more than one explored path whose reachability twin is refuted",
     }
 
 
